@@ -1441,6 +1441,12 @@ theorem isList_pair {a d : Datum} {l : Loc} {es : List Datum} (h : IsList d es) 
   simp only [IsList, Datum.spine] at h ⊢
   rw [h]
 
+theorem withLoc_loc (d : Datum) (l : Loc) : (d.withLoc l).loc = l := by cases d <;> rfl
+
+/-- a shape theorem about the use `rest.withLoc l`, with the use's location computed -/
+macro "at_loc " t:term : term =>
+  `((by have h' := $t; (try simp only [withLoc_loc] at h'); exact h'))
+
 /-- `DTail sub d`: the datum `sub` is in tail position of the datum `d`, as the parser will transform
 it — `d` itself; an arm of `(if t c)` / `(if t c a)`; the last body form of a `(lambda …)` in operator
 position; and through one expansion step of a bundled derived form (`expand1` on the generated
@@ -1476,7 +1482,7 @@ theorem DTail.of_lambda_call {sub : Datum} (loc : Loc) (formals : Datum) (pre : 
 /-- `begin`: the last form -/
 theorem dtail_begin {sub l₁ rest l pre last} (hu : IsList rest (pre ++ [last])) (h : DTail sub last) :
     DTail sub (.pair (.sym "begin" l₁) rest l) := by
-  refine .expand (by decide) (fun fuel hf => begin_shape (isList_withLoc l hu) (by simp) hf) ?_
+  refine .expand (by decide) (fun fuel hf => at_loc (begin_shape (isList_withLoc l hu) (by simp) hf)) ?_
   exact DTail.of_lambda_call _ _ pre last [] h
 
 /-- `(begin form… last)` as a template builds it -/
@@ -1487,13 +1493,222 @@ theorem dtail_begin_built {sub : Datum} (loc : Loc) {pre last} (h : DTail sub la
 /-- `when`: the last result -/
 theorem dtail_when {sub l₁ rest l test pre last} (hu : IsList rest (test :: (pre ++ [last]))) (h : DTail sub last) :
     DTail sub (.pair (.sym "when" l₁) rest l) := by
-  refine .expand (by decide) (fun fuel hf => when_shape (isList_withLoc l hu) (by simp) hf) ?_
+  refine .expand (by decide) (fun fuel hf => at_loc (when_shape (isList_withLoc l hu) (by simp) hf)) ?_
   exact .if_then (isList_ofList _ _) rfl (dtail_begin_built _ h)
 
 /-- `unless`: the last result -/
 theorem dtail_unless {sub l₁ rest l test pre last} (hu : IsList rest (test :: (pre ++ [last]))) (h : DTail sub last) :
     DTail sub (.pair (.sym "unless" l₁) rest l) := by
-  refine .expand (by decide) (fun fuel hf => unless_shape (isList_withLoc l hu) (by simp) hf) ?_
+  refine .expand (by decide) (fun fuel hf => at_loc (unless_shape (isList_withLoc l hu) (by simp) hf)) ?_
   exact .if_then (isList_ofList _ _) rfl (dtail_begin_built _ h)
+
+/-- a derived-form use as a template builds it: `(kw x₁ …)` located at `loc` -/
+theorem built_eq (loc : Loc) (kw : String) (xs : List Datum) :
+    L loc (S loc kw :: xs) = .pair (.sym kw loc) (Datum.ofList none xs) loc := rfl
+
+/-- `let`: the last body form (no bindings, or bindings `(name val) …`) -/
+theorem dtail_let {sub l₁ rest l bs bds nvs pre last} (hu : IsList rest (bs :: (pre ++ [last])))
+    (hbs : IsList bs bds) (hp : IsPairs bds nvs) (h : DTail sub last) :
+    DTail sub (.pair (.sym "let" l₁) rest l) := by
+  by_cases hnv : nvs = []
+  · have hb : bds = [] := hp.nil_iff.2 hnv
+    subst hb
+    exact .expand (by decide) (fun fuel hf => at_loc (let_empty_shape (isList_withLoc l hu) hbs (by simp) hf))
+      (DTail.of_lambda_call _ _ pre last [] h)
+  · exact .expand (by decide) (fun fuel hf => at_loc (let_shape (isList_withLoc l hu) hbs hp hnv (by simp) hf))
+      (DTail.of_lambda_call _ _ pre last _ h)
+
+theorem isPairs_built (loc : Loc) : ∀ nvs : List (Datum × Datum),
+    IsPairs (nvs.map fun nv => L loc [nv.1, nv.2]) nvs
+  | [] => .nil
+  | _ :: nvs => .cons (isList_ofList _ _) (isPairs_built loc nvs)
+
+/-- `let*`: the last body form, for any number of bindings -/
+theorem dtail_letstar {sub pre last} (h : DTail sub last) : ∀ (nvs : List (Datum × Datum)) {l₁ rest l bs bds},
+    IsList rest (bs :: (pre ++ [last])) → IsList bs bds → IsPairs bds nvs →
+    DTail sub (.pair (.sym "let*" l₁) rest l)
+  | [], l₁, rest, l, bs, bds, hu, hbs, hp => by
+    cases hp
+    refine .expand (by decide) (fun fuel hf => at_loc (letstar_empty_shape (isList_withLoc l hu) hbs (by simp) hf)) ?_
+    rw [built_eq]
+    exact dtail_let (bs := L _ []) (isList_ofList none _) (isList_ofList _ _) .nil h
+  | [nv], l₁, rest, l, bs, bds, hu, hbs, hp => by
+    cases hp with
+    | cons hb hps =>
+      cases hps
+      refine .expand (by decide) (fun fuel hf => at_loc (letstar_one_shape (isList_withLoc l hu) hbs hb (by simp) hf)) ?_
+      rw [built_eq]
+      exact dtail_let (isList_ofList none _) (isList_ofList _ [_]) (.cons (xy := nv) (isList_ofList _ _) .nil) h
+  | nv :: nv₂ :: more, l₁, rest, l, bs, bds, hu, hbs, hp => by
+    cases hp with
+    | cons hb hps =>
+      refine .expand (by decide) (fun fuel hf => at_loc (letstar_more_shape (isList_withLoc l hu) hbs hb hps (by simp) (by simp) hf)) ?_
+      rw [built_eq]
+      refine dtail_let (pre := []) (isList_ofList none _) (isList_ofList _ [_])
+        (.cons (xy := nv) (isList_ofList _ _) .nil) ?_
+      rw [built_eq]
+      exact dtail_letstar h (nv₂ :: more) (isList_ofList none _) (isList_ofList _ _) (isPairs_built _ _)
+
+/-- `and`: the last test -/
+theorem dtail_and {sub last} (h : DTail sub last) : ∀ (pre : List Datum) {l₁ rest l},
+    IsList rest (pre ++ [last]) → DTail sub (.pair (.sym "and" l₁) rest l)
+  | [], l₁, rest, l, hu =>
+    .expand (by decide) (fun fuel hf => at_loc (and_one_shape (isList_withLoc l hu) hf)) h
+  | t :: pre, l₁, rest, l, hu => by
+    refine .expand (by decide) (fun fuel hf => at_loc (and_more_shape (test := t) (tests := pre ++ [last]) (isList_withLoc l hu) (by simp) hf)) ?_
+    refine .if_then (isList_ofList _ _) rfl ?_
+    rw [built_eq]
+    exact dtail_and h pre (isList_ofList none _)
+
+/-- `or`: the last test -/
+theorem dtail_or {sub last} (h : DTail sub last) : ∀ (pre : List Datum) {l₁ rest l},
+    IsList rest (pre ++ [last]) → DTail sub (.pair (.sym "or" l₁) rest l)
+  | [], l₁, rest, l, hu =>
+    .expand (by decide) (fun fuel hf => at_loc (or_one_shape (isList_withLoc l hu) hf)) h
+  | t :: pre, l₁, rest, l, hu => by
+    refine .expand (by decide) (fun fuel hf => at_loc (or_more_shape (test := t) (tests := pre ++ [last]) (isList_withLoc l hu) (by simp) hf)) ?_
+    rw [built_eq]
+    refine dtail_let (pre := []) (nvs := [(S _ "x", t)]) (isList_ofList none _) (isList_ofList _ [_])
+      (.cons (isList_ofList _ _) .nil) ?_
+    refine .if_else (isList_ofList _ _) rfl ?_
+    rw [built_eq]
+    exact dtail_or h pre (isList_ofList none _)
+
+/-! ### `cond` -/
+
+/-- `(cond (else result… last))` -/
+theorem dtail_cond_else {sub l₁ rest l c e pre last} (hu : IsList rest [c]) (hc : IsList c (e :: (pre ++ [last])))
+    (he : isSym "else" e = true) (h : DTail sub last) : DTail sub (.pair (.sym "cond" l₁) rest l) :=
+  .expand (by decide) (fun fuel hf => at_loc (cond_else_shape (isList_withLoc l hu) hc he (by simp) hf))
+    (dtail_begin_built _ h)
+
+/-- `(cond (test result… last))`, the only clause -/
+theorem dtail_cond_clause_sole {sub l₁ rest l c test pre last} (hu : IsList rest [c])
+    (hc : IsList c (test :: (pre ++ [last]))) (hte : isSym "else" test = false)
+    (hna : ∀ a r, pre ++ [last] = [a, r] → isSym "=>" a = false) (h : DTail sub last) :
+    DTail sub (.pair (.sym "cond" l₁) rest l) :=
+  .expand (by decide) (fun fuel hf => at_loc (cond_normal_shape (isList_withLoc l hu) hc (by simp) hte hna hf))
+    (.if_then (isList_ofList _ _) rfl (dtail_begin_built _ h))
+
+/-- `(cond (test result… last) clause…)`: the last result of the first clause, and whatever is in tail
+position of `(cond clause…)` -/
+theorem dtail_cond_clause_more {sub l₁ rest l c test pre last clauses} (hu : IsList rest (c :: clauses))
+    (hc : IsList c (test :: (pre ++ [last]))) (hcl : clauses ≠ [])
+    (hna : ∀ a r, pre ++ [last] = [a, r] → isSym "=>" a = false) :
+    (DTail sub last → DTail sub (.pair (.sym "cond" l₁) rest l)) ∧
+    (DTail sub (.pair (.sym "cond" l) (Datum.ofList none clauses) l) → DTail sub (.pair (.sym "cond" l₁) rest l)) :=
+  ⟨fun h => .expand (by decide) (fun fuel hf => at_loc (cond_normal_more_shape (isList_withLoc l hu) hc (by simp) hcl hna hf))
+      (.if_then (isList_ofList _ _) rfl (dtail_begin_built _ h)),
+   fun h => .expand (by decide) (fun fuel hf => at_loc (cond_normal_more_shape (isList_withLoc l hu) hc (by simp) hcl hna hf))
+      (.if_else (isList_ofList _ _) rfl h)⟩
+
+/-- `(cond (test => receiver))`: the call `(receiver temp)` -/
+theorem dtail_cond_arrow_sole {l₁ rest l c test a r} (hu : IsList rest [c]) (hc : IsList c [test, a, r])
+    (ha : isSym "=>" a = true) (hte : isSym "else" test = false) :
+    DTail (L l [r, S l "temp"]) (.pair (.sym "cond" l₁) rest l) := by
+  refine .expand (by decide) (fun fuel hf => at_loc (cond_arrow_shape (isList_withLoc l hu) hc ha hte hf)) ?_
+  rw [built_eq]
+  refine dtail_let (pre := []) (nvs := [(S _ "temp", test)]) (isList_ofList none _) (isList_ofList _ [_])
+    (.cons (isList_ofList _ _) .nil) ?_
+  exact .if_then (isList_ofList _ _) rfl (.here _)
+
+/-- `(cond (test => receiver) clause…)`: the call `(receiver temp)`, and whatever is in tail position
+of `(cond clause…)` -/
+theorem dtail_cond_arrow_more {sub l₁ rest l c test a r clauses} (hu : IsList rest (c :: clauses))
+    (hc : IsList c [test, a, r]) (ha : isSym "=>" a = true) (hcl : clauses ≠ []) :
+    DTail (L l [r, S l "temp"]) (.pair (.sym "cond" l₁) rest l) ∧
+    (DTail sub (.pair (.sym "cond" l) (Datum.ofList none clauses) l) → DTail sub (.pair (.sym "cond" l₁) rest l)) := by
+  have key : ∀ {x}, DTail x (L l [S l "if", S l "temp", L l [r, S l "temp"], L l (S l "cond" :: clauses)]) →
+      DTail x (.pair (.sym "cond" l₁) rest l) := by
+    intro x hx
+    refine .expand (by decide) (fun fuel hf => at_loc (cond_arrow_more_shape (isList_withLoc l hu) hc ha hcl hf)) ?_
+    rw [built_eq]
+    exact dtail_let (pre := []) (nvs := [(S _ "temp", test)]) (isList_ofList none _) (isList_ofList _ [_])
+      (.cons (isList_ofList _ _) .nil) hx
+  exact ⟨key (.if_then (isList_ofList _ _) rfl (.here _)), fun h => key (.if_else (isList_ofList _ _) rfl h)⟩
+
+/-- `(cond (test))`: the test itself -/
+theorem dtail_cond_test_sole {sub l₁ rest l c test} (hu : IsList rest [c]) (hc : IsList c [test])
+    (h : DTail sub test) : DTail sub (.pair (.sym "cond" l₁) rest l) :=
+  .expand (by decide) (fun fuel hf => at_loc (cond_test_shape (isList_withLoc l hu) hc hf)) h
+
+/-- `(cond (test) clause…)`: whatever is in tail position of `(cond clause…)` -/
+theorem dtail_cond_test_more {sub l₁ rest l c test clauses} (hu : IsList rest (c :: clauses)) (hc : IsList c [test])
+    (hcl : clauses ≠ []) (h : DTail sub (.pair (.sym "cond" l) (Datum.ofList none clauses) l)) :
+    DTail sub (.pair (.sym "cond" l₁) rest l) := by
+  refine .expand (by decide) (fun fuel hf => at_loc (cond_test_more_shape (isList_withLoc l hu) hc hcl hf)) ?_
+  rw [built_eq]
+  refine dtail_let (pre := []) (nvs := [(S _ "temp", test)]) (isList_ofList none _) (isList_ofList _ [_])
+    (.cons (isList_ofList _ _) .nil) ?_
+  exact .if_else (isList_ofList _ _) rfl h
+
+/-! ### `case` -/
+
+/-- `(case (k…) clause…)` with a key that is a non-empty list: whatever is in tail position of
+`(case atom-key clause…)` -/
+theorem dtail_case_list_key {sub l₁ rest l k keys clauses} (hu : IsList rest (k :: clauses)) (hk : IsList k keys)
+    (hkn : keys ≠ []) (hcl : clauses ≠ [])
+    (h : DTail sub (.pair (.sym "case" l) (Datum.ofList none (S l "atom-key" :: clauses)) l)) :
+    DTail sub (.pair (.sym "case" l₁) rest l) := by
+  refine .expand (by decide) (fun fuel hf => at_loc (case_list_key_shape (isList_withLoc l hu) hk hkn hcl hf)) ?_
+  rw [built_eq]
+  exact dtail_let (pre := []) (nvs := [(S _ "atom-key", L _ keys)]) (isList_ofList none _) (isList_ofList _ [_])
+    (.cons (isList_ofList _ _) .nil) h
+
+/-- `(case key (else => receiver))`: the call `(receiver key)` -/
+theorem dtail_case_else_arrow {l₁ rest l key c e a r} (hu : IsList rest [key, c]) (hc : IsList c [e, a, r])
+    (he : isSym "else" e = true) (ha : isSym "=>" a = true) (hk : ∀ ks, IsList key ks → ks = []) :
+    DTail (L l [r, key]) (.pair (.sym "case" l₁) rest l) :=
+  .expand (by decide) (fun fuel hf => at_loc (case_else_arrow_shape (isList_withLoc l hu) hc he ha hk hf)) (.here _)
+
+/-- `(case key (else result… last))` -/
+theorem dtail_case_else {sub l₁ rest l key c e pre last} (hu : IsList rest [key, c])
+    (hc : IsList c (e :: (pre ++ [last]))) (he : isSym "else" e = true)
+    (hna : ∀ a r, pre ++ [last] = [a, r] → isSym "=>" a = false) (hk : ∀ ks, IsList key ks → ks = [])
+    (h : DTail sub last) : DTail sub (.pair (.sym "case" l₁) rest l) :=
+  .expand (by decide) (fun fuel hf => at_loc (case_else_shape (isList_withLoc l hu) hc he (by simp) hna hk hf))
+    (dtail_begin_built _ h)
+
+/-- `(case key ((atom…) => receiver))`, the only clause: the call `(receiver key)` -/
+theorem dtail_case_arrow_sole {l₁ rest l key c as atoms a r} (hu : IsList rest [key, c]) (hc : IsList c [as, a, r])
+    (has : IsList as atoms) (hne : atoms ≠ []) (ha : isSym "=>" a = true) (hk : ∀ ks, IsList key ks → ks = []) :
+    DTail (L l [r, key]) (.pair (.sym "case" l₁) rest l) :=
+  .expand (by decide) (fun fuel hf => at_loc (case_arrow_shape (isList_withLoc l hu) hc has hne ha hk hf))
+    (.if_then (isList_ofList _ _) rfl (.here _))
+
+/-- `(case key ((atom…) result… last))`, the only clause -/
+theorem dtail_case_clause_sole {sub l₁ rest l key c as atoms pre last} (hu : IsList rest [key, c])
+    (hc : IsList c (as :: (pre ++ [last]))) (has : IsList as atoms) (hne : atoms ≠ [])
+    (hna : ∀ a r, pre ++ [last] = [a, r] → isSym "=>" a = false) (hk : ∀ ks, IsList key ks → ks = [])
+    (h : DTail sub last) : DTail sub (.pair (.sym "case" l₁) rest l) :=
+  .expand (by decide) (fun fuel hf => at_loc (case_normal_shape (isList_withLoc l hu) hc has hne (by simp) hna hk hf))
+    (.if_then (isList_ofList _ _) rfl (dtail_begin_built _ h))
+
+/-- `(case key ((atom…) => receiver) clause…)`: the call `(receiver key)`, and whatever is in tail
+position of `(case key clause…)` -/
+theorem dtail_case_arrow_more {sub l₁ rest l key c as atoms a r clauses} (hu : IsList rest (key :: c :: clauses))
+    (hc : IsList c [as, a, r]) (has : IsList as atoms) (hne : atoms ≠ []) (ha : isSym "=>" a = true)
+    (hcl : clauses ≠ []) (hk : ∀ ks, IsList key ks → ks = []) :
+    DTail (L l [r, key]) (.pair (.sym "case" l₁) rest l) ∧
+    (DTail sub (.pair (.sym "case" l) (Datum.ofList none (key :: clauses)) l) →
+      DTail sub (.pair (.sym "case" l₁) rest l)) :=
+  ⟨.expand (by decide) (fun fuel hf => at_loc (case_arrow_more_shape (isList_withLoc l hu) hc has hne ha hcl hk hf))
+      (.if_then (isList_ofList _ _) rfl (.here _)),
+   fun h => .expand (by decide) (fun fuel hf => at_loc (case_arrow_more_shape (isList_withLoc l hu) hc has hne ha hcl hk hf))
+      (.if_else (isList_ofList _ _) rfl h)⟩
+
+/-- `(case key ((atom…) result… last) clause…)`: the last result of the first clause, and whatever is
+in tail position of `(case key clause…)` -/
+theorem dtail_case_clause_more {sub l₁ rest l key c as atoms pre last clauses}
+    (hu : IsList rest (key :: c :: clauses)) (hc : IsList c (as :: (pre ++ [last]))) (has : IsList as atoms)
+    (hne : atoms ≠ []) (hcl : clauses ≠ []) (hna : ∀ a r, pre ++ [last] = [a, r] → isSym "=>" a = false)
+    (hk : ∀ ks, IsList key ks → ks = []) :
+    (DTail sub last → DTail sub (.pair (.sym "case" l₁) rest l)) ∧
+    (DTail sub (.pair (.sym "case" l) (Datum.ofList none (key :: clauses)) l) →
+      DTail sub (.pair (.sym "case" l₁) rest l)) :=
+  ⟨fun h => .expand (by decide) (fun fuel hf => at_loc (case_normal_more_shape (isList_withLoc l hu) hc has hne (by simp) hcl hna hk hf))
+      (.if_then (isList_ofList _ _) rfl (dtail_begin_built _ h)),
+   fun h => .expand (by decide) (fun fuel hf => at_loc (case_normal_more_shape (isList_withLoc l hu) hc has hne (by simp) hcl hna hk hf))
+      (.if_else (isList_ofList _ _) rfl h)⟩
 
 end Ruschm.Macro
